@@ -231,13 +231,19 @@ def one_run(ck: Check, camp, *, doc: str, text: str, ftype: str, modular: bool, 
     cwd = root / "cwd"
     cwd.mkdir()
     out = prepare(work, state, modular)
+    header_file = None
+    if isinstance(opts.get("custom_file_header_path"), str) and opts["custom_file_header_path"].startswith("<text>:"):
+        header_file = root / "header.txt"  # beside the scratch parent: an input, part of the snapshot
+        header_file.write_text(opts["custom_file_header_path"][len("<text>:"):], encoding="utf-8")
     before = snapshot(root)
-    inp = {"doc": doc, "text": text if doc.startswith("seeded") or doc.startswith("genuine") else None, "input_file_type": ftype, "modular": modular,
+    inp = {"doc": doc, "text": text if doc.startswith(("seeded", "genuine", "header")) else None, "input_file_type": ftype, "modular": modular,
            "output_state": state, "opts": {k: (str(v) if isinstance(v, Path) else v) for k, v in opts.items()},
            "inject": None if inject is None else {"stage": inject[0], "nth": inject[3], "after": inject[4], "exc": inject[5]}}
     run_opts = dict(opts)
     if run_opts.get("custom_file_header_path") == "<missing>":
         run_opts["custom_file_header_path"] = work / "no-such-header.txt"
+    if header_file is not None:
+        run_opts["custom_file_header_path"] = header_file
     fired = True
     try:
         if inject is None:
@@ -469,9 +475,54 @@ def campaign_success(ck: Check, n_seeded: int) -> None:
     camp.wall_s = time.time() - t0
 
 
+HEADERS = [
+    "# Copyright (c) {year} ACME",
+    "# build ${BUILD_TAG}",
+    "# {",
+    "# }",
+    "# {}",
+    "# {0} {1}",
+    "# {filename!r:>10}",
+    "# 100% generated, {done}% reviewed",
+    "# %s %(name)s %d %",
+    "# {{escaped}} braces",
+    "# {a[0]} {b.c}",
+    "# plain header",
+    "# caf\u00e9 {x}",
+]
+
+
+def campaign_headers(ck: Check, n_random: int) -> None:
+    """user-supplied header text is data: whatever it contains, a run either succeeds (and changes only
+    the output) or fails with the tree untouched — with output that already exists"""
+    camp = ck.campaign("custom_file_header / custom_file_header_path with braces, percent signs, format-like text x existing output")
+    t0 = time.time()
+    rng = ck.rng.fork("headers")
+    headers = list(HEADERS)
+    alphabet = ["{", "}", "{}", "{0}", "%", "%s", "%(", "$", "#", " ", "x", "year", "!r", ":", "[", "]", ".", "\n# "]
+    for _ in range(n_random):
+        headers.append("# " + "".join(rng.choice(alphabet) for _ in range(rng.range(1, 6))))
+    for h in headers:
+        for doc in ("single", "modular"):
+            text, ftype, modular = DOCS[doc]
+            for state in (("existing_file", "missing") if not modular else ("directory_with_results", "missing")):
+                for how in ("custom_file_header", "custom_file_header_path"):
+                    if how == "custom_file_header_path" and state == "missing":
+                        continue
+                    opts = {how: h if how == "custom_file_header" else "<text>:" + h}
+                    if "\u00e9" in h and rng.chance(1, 2):
+                        opts["encoding"] = "ascii"
+                    obs = one_run(ck, camp, doc="header:" + doc, text=text, ftype=ftype, modular=modular, state=state, opts=opts,
+                                  inject=None, base_cls={"kind": "genuine", "stage": "custom_header"})
+                    camp.hit(how)
+                    if obs is not None and not obs["failed"]:
+                        camp.hit("header_written")
+    camp.wall_s = time.time() - t0
+
+
 def d17_model_correspondence(ck: Check) -> None:
-    """the refuting witness of the model against the real encoding failure"""
-    camp = ck.campaign("D17 witness: model run with an unencodable text vs the real encoding failure")
+    """the former D17 witness: model run with an unencodable text vs the real encoding failure"""
+    camp = ck.campaign("former D17 witness: model run with an unencodable text vs the real encoding failure (both: failed, nothing changed)")
     name, text, ftype, modular, opts, fclass = next(g for g in GENUINE if g[0] == "encode_error_ascii")
     probe = Check(ck.prop, ck.tier)
     probe.findings = []
@@ -521,7 +572,8 @@ def run(ck: Check) -> None:
     ck.prove()
     ck.assumptions += [
         "OsOk: mkdir/open/close and switching back to the saved directory do not fail (disk full, permissions, a deleted cwd are outside the model and the campaigns)",
-        "EncodableAll: every emitted text can be encoded in the requested encoding (hypothesis of failed_run_fs_unchanged; its absence is known finding D17)",
+        "the text the write loop prints is the text the pre-loop encode check encodes (decided syntactically on the extracted expressions, normalised by the translator); print() adds only a newline",
+        "a variable assembled in generate() from string literals and f-strings only (the default header template) can be passed through str.format after open: the interpolated timestamp / version contain no braces",
         "calls on the BENIGN list of vlib/translate/generate_steps.py cannot raise on the values generate() gives them",
         "module file names are plain names (C12), so output.joinpath(*name) stays below output",
         "faults are injected in-process by patching the stage from the harness; a crash of the interpreter itself (SIGKILL) is outside the property",
@@ -530,6 +582,7 @@ def run(ck: Check) -> None:
     campaign_faults(ck, 2 if quick else 30, [1, 2] if quick else [1, 2, 3, 5])
     campaign_genuine(ck)
     campaign_success(ck, 4 if quick else 40)
+    campaign_headers(ck, 6 if quick else 120)
     d17_model_correspondence(ck)
     ck.search_hooks.append(search_after_broken_table)
     known_findings(ck)
